@@ -675,7 +675,7 @@ Proof.
     unfold spe_contract. cbn [s_batches s_pad s_ix s_dec o]. fold s. split; [|split; [|split; [|split; [exact Hix|exact Hcat]]]].
     + (* every proposed test point is feasible *)
       apply Forall_forall. intros x Hx. apply feasible_relaxed_ok. unfold batch_rows in Hx. apply in_flat_map in Hx as (b & Hb & Hx).
-      unfold spe_batches in Eb. pose proof (all_some_In _ _ b Eb Hb) as Hsb. apply in_map_iff in Hsb as (it & Eit & Hit).
+      unfold spe_batches, spe_batches_n in Eb. pose proof (all_some_In _ _ b Eb Hb) as Hsb. apply in_map_iff in Hsb as (it & Eit & Hit).
       rewrite Forall_forall in Hits. specialize (Hits it Hit).
       destruct (spe_batch_rows d c _ _ _ _ _ b x Eit Hx) as (pts & Ep & Hxp).
       pose proof (proposals_ok d c _ Hwf H2 Hi _ _ _ Hits Ep) as F. rewrite Forall_forall in F. apply F, Hxp.
